@@ -209,7 +209,9 @@ fn check_base(host: &Host, end: &RunEnd, cx: &Ctx) -> Vec<Finding> {
         }
         // the wake-up stream ledger is a safety property of the log prefix:
         // judge what happened before the panic as well
-        if cx.props.contains(&"C23") {
+        // (unless the panic already names the root cause of what the ledger would see)
+        let named = out.iter().any(|fd| fd.sig == "wakeup:wake-of-task-cancelled-while-sleeping:panic");
+        if cx.props.contains(&"C23") && !named {
             crate::monitors2::c23(host, end, &mut out);
         }
         return out;
